@@ -317,6 +317,18 @@ def parallel_map(fn, items, jobs=8):
         return list(ex.map(fn, items))
 
 
+def clip_stderr(se, n=1500):
+    """The tail of a child's stderr, but never without its `panicked at` line (a backtrace can be
+    longer than the tail: the location decides between a result and a tool error)."""
+    se = se or ""
+    if len(se) <= n:
+        return se
+    i = se.find("panicked at ")
+    if i >= 0 and i < len(se) - n:
+        return se[max(0, i - 40):i + 500] + "\n...\n" + se[-(n - 500):]
+    return se[-n:]
+
+
 def panic_in_code_under_test(stderr):
     """True when a panic message points into the repository under test (a result), False when
     it points into the harness itself (a tool error)."""
